@@ -22,7 +22,8 @@ structure S where
   diverged : Nat := 0
   cov : List (String × Nat) := []
   stop : Bool := false
-  evs : Array Ev := #[]          -- the implementation's records, for the monitors
+  evs : Array Ev := #[]          -- the implementation's records of the current execution, for the monitors
+  monBad : List (String × String) := []   -- monitor rejections of earlier executions in the same log (before a `cycle`)
   evPending : Option (List String) := none
   evStop : Bool := false
 
@@ -370,7 +371,20 @@ def toEvs (s : S) (ws : List String) : S × List Ev :=
   | ["MAINRET"] => (s, [Ev.out .mainRet])
   | _ => (s, [])
 
+/-- the verdicts of all monitors on one execution (from `iv_init` to `iv_deinit`) -/
+def verdicts (evs : List Ev) : List (String × Option String) :=
+  [("C01", Ivy.Mon.C01.verdict evs), ("C02", Ivy.Mon.C02.verdict evs), ("C03", Ivy.Mon.C03.verdict evs),
+   ("C04", Ivy.Mon.C04.verdict evs), ("C06", Ivy.Mon.C06.verdict evs), ("C07", Ivy.Mon.C07.verdict evs),
+   ("C07spin", Ivy.Mon.C07.spin4Verdict evs), ("C07idle", Ivy.L1.Progress.idleVerdict evs)]
+
 def stepAll (s : S) (ws : List String) : S × List String :=
+  -- `cycle` tore the loop down and initialised it again: the theorems (and so the monitors) are about ONE execution from the
+  -- initial state, so the records so far are judged now and a new execution starts
+  let s := match s.m, ws with
+    | some _, "CFG" :: _ =>
+      let bad := (verdicts s.evs.toList).filterMap fun (nm, v) => v.map fun e => (nm, e)
+      { s with evs := #[], monBad := s.monBad ++ bad.filter fun (nm, _) => !(s.monBad.any (·.1 == nm)) }
+    | _, _ => s
   let (s, evs) := toEvs s ws
   let s := { s with evs := evs.foldl Array.push s.evs }
   step s ws
@@ -378,11 +392,9 @@ def stepAll (s : S) (ws : List String) : S × List String :=
 def run : IO Unit := do
   let out ← IO.getStdout
   let s ← loopLines (← IO.getStdin) out ({} : S) stepAll
-  let evs := s.evs.toList
-  for (nm, v) in [("C01", Ivy.Mon.C01.verdict evs), ("C02", Ivy.Mon.C02.verdict evs), ("C03", Ivy.Mon.C03.verdict evs),
-                  ("C04", Ivy.Mon.C04.verdict evs), ("C06", Ivy.Mon.C06.verdict evs), ("C07", Ivy.Mon.C07.verdict evs),
-                  ("C07spin", Ivy.Mon.C07.spin4Verdict evs), ("C07idle", Ivy.L1.Progress.idleVerdict evs)] do
-    match v with
+  for (nm, v) in verdicts s.evs.toList do
+    -- an earlier execution of this log (before a `cycle`) may already have been rejected
+    match (s.monBad.find? (·.1 == nm)).map (·.2) <|> v with
     | none => out.putStrLn s!"MON {nm} ok"
     | some e => out.putStrLn s!"MON {nm} VIOLATION {e}"
   out.putStrLn s!"SUMMARY lines {s.line} agree {s.agree} diverged {s.diverged}"
